@@ -8,7 +8,7 @@ import cfcommon as cf
 class C04(core.Prop):
     pid = 'C04'
     lean_modules = ['TddaVerif.Props.C04']
-    theorems = ['TddaVerif.Props.C04.' + t for t in ['checkPatterns_sound', 'checkPatterns_complete', 'lineOKb_iff',
+    theorems = ['TddaVerif.Props.C04.' + t for t in ['default_encoding', 'explicit_encoding_wins', 'tie_guess_encoding', 'checkPatterns_sound', 'checkPatterns_complete', 'lineOKb_iff',
         'check_pass_iff', 'identical_passes', 'different_length_fails', 'unexcused_difference_fails', 'sorted_eq_iff_perm']]
     quick_n = 1800
     thorough_n = 30000
@@ -39,7 +39,17 @@ class C04(core.Prop):
         (b'Ren\xe9\n', b'Ren\xe9\n', {}),
     ]
 
+    ENC_PATHS = ['ref/out.txt', 'ref/Report.PDF', 'x.pdf', 'a.b/c', 'noext', '.pdf', 'dir.pdf/file', 'x.Pdf', 'data.csv', '', 'x.pdf.txt',
+                 'archive.tar.pdf', 'UPPER.TXT', 'a/.hidden.pdf']
+    ENC_NAMES = [None, None, 'utf-8', 'UTF8', 'utf8', 'Latin-1', 'ascii', 'UTF-16', 'iso-8859-1', 'CP932', 'utf-8-sig']
+
+    def translate(self):
+        import translate
+        return translate.regenerate(['Utils'])
+
     def gen_case(self, rng, i):
+        if rng.random() < 0.03:
+            return {'entry': 'enc', 'path': rng.choice(self.ENC_PATHS), 'enc': rng.choice(self.ENC_NAMES), 'opts': {}}
         if rng.random() < 0.03:
             e, a, kw = rng.choice(self.RAW_PAIRS)
             return {'entry': rng.choice(['rawfile', 'rawfiles']), 'expected_hex': e.hex(), 'actual_hex': a.hex(), 'opts': dict(kw)}
@@ -73,6 +83,8 @@ class C04(core.Prop):
             shutil.rmtree(root, ignore_errors=True)
 
     def model_ops(self, case):
+        if case['entry'] == 'enc':
+            return [{'op': 'c04.encoding', 'path': case['path'], 'enc': case['enc']}]
         if case['entry'].startswith('raw'):
             return []
         try:
@@ -81,6 +93,12 @@ class C04(core.Prop):
             return []
 
     def impl_outputs(self, case):
+        if case['entry'] == 'enc':
+            from tdda.referencetest.utils import get_encoding
+            try:
+                return [get_encoding(case['path'], case['enc'])]
+            except Exception as e:   # noqa
+                return [{'exc': type(e).__name__}]
         if case['entry'].startswith('raw'):
             return []
         return [cf.impl_output(case)]
@@ -92,6 +110,8 @@ class C04(core.Prop):
         for k in case['opts']:
             self.count('opt_' + k)
         self.count('entry_' + case['entry'])
+        if case['entry'] == 'enc':
+            return None
         if case['entry'].startswith('raw'):
             return json.dumps(case, sort_keys=True) if case['actual_hex'] != case['expected_hex'] else None
         a, e = cf.lines_seen_by_code(case)
@@ -102,6 +122,13 @@ class C04(core.Prop):
     def oracle(self, case):
         F = []
         fail = lambda clause, detail, key=None: F.append(core.Failure(clause, case, detail, key or clause))
+        if case['entry'] == 'enc':
+            # the documented default: UTF-8 unless another encoding is given (PDF files apart)
+            from tdda.referencetest.utils import get_encoding
+            got = get_encoding(case['path'], case['enc'])
+            if case['enc'] is None and not case['path'].lower().endswith('.pdf') and got != 'utf-8':
+                fail('default-encoding', 'no encoding given for %r: files are read as %r, documented default utf-8' % (case['path'], got))
+            return F
         if case['entry'].startswith('raw'):
             # files that cannot be decoded as asked and differ: whatever the comparison does (refuse, fail), it does not pass
             r = self.run_raw(case)
